@@ -56,6 +56,9 @@ func registerStdIntrinsics(ip *Interp) {
 		return ip.zero(f.Signature.Results().At(0).Type())
 	})
 	registerStd2(ip)
+	registerFS(ip)
+	registerSync(ip)
+	registerEnv(ip)
 }
 
 // ---------------------------------------------------------------- fmt
